@@ -137,7 +137,7 @@ Definition is_tx_or_hdr (c : case) : bool :=
 Theorem bridge : forall H c,
   is_tx_or_hdr c = true -> wf_case c = true -> run_caseH H c = true -> prop_caseH H c = true.
 Proof.
-  intros H [src ctx b bad o alts | src b o alts | | | | ] K Wc R; try discriminate K; clear K.
+  intros H [src ctx b bad o alts | src b o alts | | | | | | | ] K Wc R; try discriminate K; clear K.
   - (* transactions *)
     cbn [wf_case] in Wc. cbn [run_caseH] in R. cbn [prop_caseH]. unfold tx_prop.
     apply andb_true_iff in Wc as [Wc L].
